@@ -332,14 +332,14 @@ def r03_5(ctx: Ctx):
         state = 'untested'      # untested | go | stopped
         last_stop = None
         for e in evs:
-            if e.kind == 'call' and sr in e.d['callees'] and e.depth == 0:
+            if e.kind == 'call' and sr in e.d['callees'] and C.at_level(e, sd):
                 last_stop = e
                 state = 'pending'
             elif e.kind == 'guard' and last_stop is not None and state == 'pending':
                 l = e.d['lit']
                 if l.kind == 'truth' and l.key == key_of(last_stop.d['result']):
                     state = 'stopped' if l.pol else 'go'
-            elif e.kind == 'call' and drv in e.d['callees'] and e.depth == 0:
+            elif e.kind == 'call' and drv in e.d['callees'] and C.at_level(e, sd):
                 n_steps += 1
                 ok = state == 'go'
                 ctx.check(ok, rid, sd.short, sd.loc(e.node),
